@@ -352,6 +352,10 @@ class Program:
             if head in f.nested:
                 n = f.nested[head]
                 return n.qualname + ("." + rest if rest else "")
+            li = self._local_imports(f)
+            if head in li:
+                full = li[head] + ("." + rest if rest else "")
+                return self._canon(full)
             if head in f.all_param_names() or head in _assigned_names(f):
                 return None
             f = f.parent
@@ -379,6 +383,26 @@ class Program:
             break
         full = q + ("." + rest if rest else "")
         return self._canon(full)
+
+    def _local_imports(self, f):
+        cache = getattr(f, "_limports", None)
+        if cache is not None:
+            return cache
+        out = {}
+        for n in f.body_nodes():
+            if isinstance(n, ast.Import):
+                for a in n.names:
+                    if a.asname:
+                        out[a.asname] = a.name
+                    else:
+                        top = a.name.split(".")[0]
+                        out[top] = top
+            elif isinstance(n, ast.ImportFrom):
+                base = self._abs_import(f.module, n.level, n.module)
+                for a in n.names:
+                    out[a.asname or a.name] = (base + "." + a.name) if base else a.name
+        f._limports = out
+        return out
 
     def _canon(self, full):
         """Follow re-exports inside the package: a.b.C where a.b is a package module
